@@ -18,6 +18,9 @@ package main
 // return value is nil or one of the scripted errors the relay was shown.
 
 import (
+	"syscall"
+	"net"
+	"io"
 	"errors"
 	"fmt"
 	"strings"
@@ -50,6 +53,9 @@ func (s *vf19Side) describe() map[string]any {
 	term := "none"
 	if s.term >= 0 {
 		term = vf19KindName(s.term)
+	}
+	if s.term == vf19RErr && s.rerr != nil && !errors.Is(s.rerr, errVf19Scripted) {
+		term += "[" + s.rerr.Error() + "]"
 	}
 	if s.term >= 0 && s.withDat && len(s.chunks) > 0 {
 		term += "(same Read as the last data)"
@@ -88,7 +94,21 @@ func vf19DrawSide(rt *rapid.T, side int, salt uint64, allowGate bool) *vf19Side 
 		s.term = vf19EOF
 	case 3, 4, 5:
 		s.term = vf19RErr
-		s.rerr = vf19ScriptErr(fmt.Sprintf("read side %d", side))
+		// the error a side ends with is not always an anonymous one: a connection that closed ITSELF
+		// (meek_lite after a failed round trip, obfs3 on a missing magic) reports io.ErrClosedPipe /
+		// net.ErrClosed although the relay has not closed anything yet
+		switch rapid.SampledFrom([]string{"scripted", "scripted", "closed-pipe", "net-closed", "unexpected-eof", "reset"}).Draw(rt, lbl+"errFlavour") {
+		case "closed-pipe":
+			s.rerr = io.ErrClosedPipe
+		case "net-closed":
+			s.rerr = &net.OpError{Op: "read", Net: "tcp", Err: net.ErrClosed}
+		case "unexpected-eof":
+			s.rerr = io.ErrUnexpectedEOF
+		case "reset":
+			s.rerr = &net.OpError{Op: "read", Net: "tcp", Err: syscall.ECONNRESET}
+		default:
+			s.rerr = vf19ScriptErr(fmt.Sprintf("read side %d", side))
+		}
 	}
 	s.withDat = rapid.IntRange(0, 9).Draw(rt, lbl+"termWithData") < 5
 	if rapid.IntRange(0, 9).Draw(rt, lbl+"wfault") < 1 {
@@ -269,7 +289,7 @@ func vf19RelayClasses(prefix string, c *vf19Case, sc [2]*vf19Side) (classes []st
 
 func TestVerifC19RelayLockstep(t *testing.T) {
 	e := ev.For("C19")
-	e.Rule("relay-lock: per side 0-4 chunks (1 B .. 70 KB, incl. io.Copy buffer size +-1), optional EOF/read error (at least one side ends), reported in 50 % of the cases by the same Read call that returns the last bytes of the last chunk (n>0 with err), optional write fault after n bytes, optional gated writes (a Write parks until the plan allows it, Close unparks it), optional small reads; the plan is a generated global order of 'next event arrives on side X' / 'k parked writes on side X may complete'; quiescence (own parked tracking + goroutine dump for exited copiers) after every step; non-trivial = both sides had produced data the relay had read when the first terminal event was seen; fingerprint = script + plan")
+	e.Rule("relay-lock: per side 0-4 chunks (1 B .. 70 KB, incl. io.Copy buffer size +-1), optional EOF/read error (at least one side ends; the error is an anonymous one, io.ErrClosedPipe, net.ErrClosed or ECONNRESET inside an OpError, or io.ErrUnexpectedEOF - what a connection that closed itself reports), reported in 50 % of the cases by the same Read call that returns the last bytes of the last chunk (n>0 with err), optional write fault after n bytes, optional gated writes (a Write parks until the plan allows it, Close unparks it), optional small reads; the plan is a generated global order of 'next event arrives on side X' / 'k parked writes on side X may complete'; quiescence (own parked tracking + goroutine dump for exited copiers) after every step; non-trivial = both sides had produced data the relay had read when the first terminal event was seen; fingerprint = script + plan")
 	e.Assume("io.Copy (standard library) and the Go scheduler are trusted; a scripted conn behaves like a socket: Close unblocks parked Read/Write with an error, EOF/read error are sticky")
 	e.Floor("relay-lock-data-both-ways-before-end/relay-lock", 0.15)
 	e.Floor("relay-lock-gated-writes/relay-lock", 0.20)
